@@ -494,7 +494,12 @@ func (c *C11) Run(x *engine.Ctx) *engine.Violation {
 	d := c.d
 	a := d.sys
 	path := []string{"raw", "compressed", "converted"}[t.Weighted(2, 2, 2)]
-	style := t.Weighted(3, 3, 1)
+	style := t.Weighted(3, 3, 2)
+	if ops.Bin() != "" && t.Chance(1, 6) {
+		if v := c.cliConvert(x); v != nil {
+			return v
+		}
+	}
 	load := func(data []byte, what string) (*prover.ProvingSystem, *engine.Violation) {
 		var ps *prover.ProvingSystem
 		var err error
@@ -523,6 +528,18 @@ func (c *C11) Run(x *engine.Ctx) *engine.Violation {
 				}
 				if t.Chance(1, 2) {
 					cuts = append(cuts, 4<<20, 8<<20) // bufio's refill boundary pattern
+				}
+				if t.Chance(1, 2) {
+					// short reads inside the 8-byte header and around the section boundaries
+					cuts = append(cuts, 1+t.Draw(3), 5+t.Draw(3))
+					ends := d.rawB
+					if what == "compressed" {
+						ends = d.cmpB
+					}
+					for _, e := range ends[:3] {
+						cuts = append(cuts, int(e)-1-t.Draw(3), int(e)+1+t.Draw(3))
+					}
+					x.S.Count("fault:disk/short-read-inside-header")
 				}
 				sort.Ints(cuts)
 				ps = new(prover.ProvingSystem)
@@ -664,6 +681,34 @@ func (c *C15) cliOnPrefix(x *engine.Ctx, format string, prefix []byte, ends [4]i
 	}
 	if r.Exit == 0 {
 		return engine.Violatef("C15/cli-exits-zero-on-truncated-file/"+cmdName, "%s: exit status 0", where)
+	}
+	return nil
+}
+
+// cliConvert: `gnark-mbu convert-to-raw` on A's compressed file must write exactly A's raw file.
+func (c *C11) cliConvert(x *engine.Ctx) *engine.Violation {
+	dir, err := ops.Scratch(fmt.Sprintf("c11cli-%d-%d", os.Getpid(), x.Run))
+	if err != nil {
+		panic(err)
+	}
+	defer os.RemoveAll(dir)
+	in, out := filepath.Join(dir, "in.ps"), filepath.Join(dir, "out.ps")
+	if err := os.WriteFile(in, c.d.comp, 0o644); err != nil {
+		panic(err)
+	}
+	r := ops.Run(ops.Cmd{Args: []string{"convert-to-raw", "--input", in, "--output", out}})
+	x.S.Eval(1)
+	x.S.Count("probe:cli_convert_to_raw")
+	x.Log.Addf("cli", "convert-to-raw", "%s exit=%d", c.d.sys.Key(), r.Exit)
+	if r.Exit != 0 {
+		return engine.Violatef("C11/cli-convert-to-raw-fails", "%s: %s", c.d.sys.Key(), ops.Describe(r))
+	}
+	got, err := os.ReadFile(out)
+	if err != nil {
+		return engine.Violatef("C11/cli-convert-to-raw-fails", "%s: no output file: %v", c.d.sys.Key(), err)
+	}
+	if !bytes.Equal(got, c.d.raw) {
+		return engine.Violatef("C11/cli-converted-file-differs-from-raw-file", "%s: `gnark-mbu convert-to-raw` wrote %d bytes that are not the raw file the system writes itself (%d bytes)", c.d.sys.Key(), len(got), len(c.d.raw))
 	}
 	return nil
 }
